@@ -172,12 +172,13 @@ static int vm_run_with_threads(
           }
           continue;
         case REGEX_PROGRAM_OPCODE_CHARACTER_CLASS:
-          if (cregex_char_class_contains(thread->pc->klass, *sp)) {
+          if (*sp && cregex_char_class_contains(thread->pc->klass, *sp)) {
             break;
           }
           continue;
         case REGEX_PROGRAM_OPCODE_CHARACTER_CLASS_NEGATED:
-          if (!cregex_char_class_contains(thread->pc->klass, *sp)) {
+          /* the terminator is not a character: a thread must never advance beyond it */
+          if (*sp && !cregex_char_class_contains(thread->pc->klass, *sp)) {
             break;
           }
           continue;
